@@ -1,0 +1,70 @@
+//go:build verif
+
+// Contracts for the static-lease file plugin, checked by /verif/govc (comment-only file).
+
+package file
+
+//@ guard var StaticRecords by recLock
+//@ global StaticRecords written-by loadFromFile
+
+// which address family a table holds: 4 = every address is IPv4, 6 = every address is a 16-byte non-IPv4 one
+//@ pure func allv4(m map[string]net.IP) bool = forall k string: has(m, k) ==> isv4(m[k])
+//@ pure func allv6(m map[string]net.IP) bool = forall k string: has(m, k) ==> (len(m[k]) == 16 && !isv4mapped(m[k]))
+
+//@ func LoadDHCPv4Records
+//@   modifies everything
+//@   ensures ret1 == nil ==> (ret0 != nil && fresh(ret0) && allv4(ret0))
+//@   ensures ret1 != nil ==> ret0 == nil
+//@   ensures StaticRecords == old(StaticRecords) && held(recLock) == old(held(recLock)) && rheld(recLock) == old(rheld(recLock))
+//@   loop 1: invariant records != nil && fresh(records) && allv4(records) && StaticRecords == old(StaticRecords)
+
+//@ func LoadDHCPv6Records
+//@   modifies everything
+//@   ensures ret1 == nil ==> (ret0 != nil && fresh(ret0) && allv6(ret0))
+//@   ensures ret1 != nil ==> ret0 == nil
+//@   ensures StaticRecords == old(StaticRecords) && held(recLock) == old(held(recLock)) && rheld(recLock) == old(rheld(recLock))
+//@   loop 1: invariant records != nil && fresh(records) && allv6(records) && StaticRecords == old(StaticRecords)
+
+// C10: an update is all-or-nothing - a file with any malformed line leaves the table in force,
+// a well-formed one replaces it as a whole (one pointer store under the write lock)
+//@ func loadFromFile
+//@   requires !held(recLock) && !rheld(recLock)
+//@   modifies everything
+//@   ensures !held(recLock) && !rheld(recLock)
+//@   ensures[C10:malformed-update-changes-nothing] ret != nil ==> StaticRecords == old(StaticRecords)
+//@   ensures[C10:wellformed-update-replaces-table] ret == nil ==> (StaticRecords != nil && fresh(StaticRecords) && ((v6 ==> allv6(StaticRecords)) && (!v6 ==> allv4(StaticRecords))))
+
+// C10: each instance serves from its own file
+//@ plugin-invariant[C10,setup4,Handler4] StaticRecords != nil && allv4(StaticRecords)
+//@ plugin-invariant[C10,setup6,Handler6] StaticRecords != nil && allv6(StaticRecords)
+
+//@ func Handler4
+//@   implements handler.Handler4
+//@   requires !held(recLock) && !rheld(recLock)
+//@   modifies everything
+//@   ensures !held(recLock) && !rheld(recLock)
+//@   ensures[C10:listed-client-gets-its-address] has(StaticRecords, hwstr(req.ClientHWAddr)) ==> (ret0 == resp && ret1 && resp.YourIPAddr == StaticRecords[hwstr(req.ClientHWAddr)])
+//@   ensures[C10:unlisted-client-gets-nothing] !has(StaticRecords, hwstr(req.ClientHWAddr)) ==> (ret0 == resp && !ret1 && resp.YourIPAddr == old(resp.YourIPAddr))
+//@   ensures[C10:table-untouched] StaticRecords == old(StaticRecords)
+
+//@ func Handler6
+//@   implements handler.Handler6
+//@   requires !held(recLock) && !rheld(recLock)
+//@   modifies everything
+//@   ensures !held(recLock) && !rheld(recLock)
+//@   ensures[C10:table-untouched] StaticRecords == old(StaticRecords)
+//@   ensures[C10:no-ia-na-no-address] (ret0 != nil && oneiana6(inner6(req).Options) == nil) ==> (optn6(resp.(*dhcpv6.Message)) == old(optn6(resp.(*dhcpv6.Message))))
+
+//@ func setupFile
+//@   requires !held(recLock) && !rheld(recLock)
+//@   modifies everything
+//@   ensures !held(recLock) && !rheld(recLock)
+//@   ensures ret2 == nil ==> (StaticRecords != nil && ((v6 ==> allv6(StaticRecords)) && (!v6 ==> allv4(StaticRecords))))
+
+//@ func setup4
+//@   requires !held(recLock) && !rheld(recLock)
+//@   modifies everything
+
+//@ func setup6
+//@   requires !held(recLock) && !rheld(recLock)
+//@   modifies everything
